@@ -24,7 +24,7 @@ DEFINING = {'ASP': ('CG', 'COO'), 'GLU': ('CD', 'COO'), 'HIS': ('CG', 'HIS'), 'C
 
 
 def task_reader(pr, repo, tag):
-    names = reader.NAMES
+    names = reader.NAMES + (['SYMB'] if pr.tier == 'thorough' else [])      # thorough: fully symbolic atom-name field
     reader.explore_steps(pr, repo, reader.check_transition, tags=[tag], names=names, chains_cases=(None,),
                          keep_protons_cases=(False, True) if tag == 'ATOM  ' else (False,), what='C01 record step')
 
